@@ -1048,7 +1048,29 @@ static void run_exact(Tape &t, CaseCtx &ctx, const ModeDesc &md) {
     if (ctx.verbose)
       ctx.log << "     v" << i << " = " << V[i]->str() << "   model: " << model_str(g, M[i]) << "\n";
     g_where = mode + "_" + opname + "_query";
-    check(i, opname, refp);
+    try {
+      check(i, opname, refp);
+    } catch (const Fail &f) {
+      // Known finding (known_findings.json): recorded once per case, then EXCLUDED BY
+      // CONSTRUCTION so that the search continues behind it: the value is rebuilt from
+      // the tight constraints of its model through the assume path (which this harness
+      // checks to be exact) and must then pass the same oracle under a distinct tag.
+      if (!R().is_known(f.cls) || M[i].empty())
+        throw;
+      R().known[std::string(P) + " " + f.cls]++;
+      R().excl(f.cls);
+      if (ctx.verbose)
+        ctx.log << "     KNOWN-FINDING class=" << f.cls << " : " << f.msg << "\n     (value rebuilt from its model; search continues)\n";
+      abs_p fresh = md.make();
+      csts_t sys;
+      for (size_t sh = 0; sh < g.sh.size(); sh++)
+        if (!shape_free(g.sh[sh], M[i].fr))
+          sys += mk_leq(g.sh[sh], x, g.tight(M[i].S, (int)sh), 0);
+      fresh->add(sys);
+      V[i]->assign_from(*fresh);
+      g_where = mode + "_rebuilt_query";
+      check(i, "rebuilt", nullptr);
+    }
   }
   // final sweep: no value was disturbed by operations on the others
   for (int i = 0; i < NV; i++) {
